@@ -609,11 +609,15 @@ class Program:
             self._impls = m
         return self._impls
 
-    def closures_of(self, fid):
+    def any_body(self, id):
+        """a body by id, including spliced helpers / projected closures that are hidden from iteration"""
+        return self.bodies.get(id) or self.hidden.get(id)
+
+    def closures_of(self, fid, include_hidden=False):
         """closure bodies lexically nested (at any depth) in function fid"""
         if self._closures_of is None:
             m = defaultdict(list)
-            for b in self.bodies.values():
+            for b in list(self.bodies.values()) + list(self.hidden.values()):
                 if b.kind == "closure" and b.parent:
                     m[b.parent].append(b.id)
             self._closures_of = m
@@ -621,7 +625,7 @@ class Program:
         b = self.bodies.get(fid)
         for h in (b.rec.get("inlined", []) if b is not None else []):
             out += self._closures_of.get(h, [])
-        return [c for c in out if c not in self.hidden]
+        return [c for c in out if include_hidden or c not in self.hidden]
 
     def promoted_of(self, fid):
         ids = [fid] + (self.bodies[fid].rec.get("inlined", []) if fid in self.bodies else [])
